@@ -142,6 +142,51 @@ def ensure_rust(run_tests=False, verbose=False):
 
 
 # --------------------------------------------------------------------------
+# frame-stack chunk cache (performance only; see substrate/c/fastarena.c)
+
+_fa_done = False
+
+
+def fastarena():
+    """Install the arena-allocator shim into this interpreter (idempotent,
+    best effort: without a C compiler the checks just run slower)."""
+    global _fa_done
+    if _fa_done or os.environ.get('VERIF_NO_FASTARENA'):
+        return
+    _fa_done = True
+    try:
+        import ctypes
+        src = HERE / 'c' / 'fastarena.c'
+        key = hashlib.sha256(src.read_bytes()).hexdigest()[:16]
+        lib = CACHE / 'fa' / f'fa-{key}.so'
+        if not lib.exists():
+            with _Lock('fa'):
+                if not lib.exists():
+                    lib.parent.mkdir(parents=True, exist_ok=True)
+                    tmp = lib.with_suffix('.tmp%d' % os.getpid())
+                    for cc in ('gcc', 'cc', 'clang'):
+                        if shutil.which(cc):
+                            r = subprocess.run(
+                                [cc, '-O2', '-shared', '-fPIC', '-o',
+                                 str(tmp), str(src)], capture_output=True)
+                            if r.returncode == 0:
+                                os.replace(tmp, lib)
+                                break
+        if not lib.exists():
+            return
+        if sys.version_info[:2] != (3, 12):
+            return
+        dll = ctypes.CDLL(str(lib))
+        dll.fa_struct.restype = ctypes.c_void_p
+        fn = ctypes.pythonapi.PyObject_SetArenaAllocator
+        fn.argtypes = [ctypes.c_void_p]
+        fn.restype = None
+        fn(dll.fa_struct())
+    except Exception:
+        pass
+
+
+# --------------------------------------------------------------------------
 # grammar tables (2.2)
 
 def _grammar_key():
@@ -236,6 +281,7 @@ def install(need_parser=True):
     global _installed
     if _installed:
         return
+    fastarena()
     for p in (str(REPO), str(HERE / 'py')):
         if p not in sys.path:
             sys.path.insert(0, p)
